@@ -5,6 +5,7 @@ import Pypika.Ident
 import Pypika.Crit
 import Pypika.Build
 import Pypika.Guards
+import Pypika.DDL
 /-!
 # JSON → model values (driver side only; no theorem depends on this file)
 -/
@@ -254,6 +255,39 @@ def dCall (j : Json) : D C08.Call := do
   | "force_index" => pure (.forceIndex (← n "id")) | "use_index" => pure (.useIndex (← n "id"))
   | "set" => pure (.set (← n "id")) | "columns" => pure (.columns (← n "id")) | "insert" => pure (.insert (← n "id"))
   | s => throw s!"call kind {s}"
+
+def dColumn (j : Json) : D ColumnD := do
+  let nl := fld j "nullable"
+  pure { name := ← fStr j "name", type := ← fOptStr j "type", nullable := (← if nl.isNull then pure none else some <$> nl.getBool?),
+         default := ← jOpt dTerm (fld j "default") }
+
+def dStrs (j : Json) : D (List Str) := do (← j.getArr?).toList.mapM jStr
+
+def dCreate (j : Json) : D CreateD := do
+  let pf ← (← fArr j "period_fors").mapM fun p => do let a ← p.getArr?; pure ((← jStr a[0]!), (← jStr a[1]!), (← jStr a[2]!))
+  let fk ← jOpt (fun x => do pure ((← dStrs (fld x "columns")), (← dTRef (fld x "table")), (← dStrs (fld x "ref_columns")))) (fld j "foreign_key")
+  pure { quote := ← jChar (fld j "quote"), dialect := ← jOptDialect (fld j "dialect"), vertica := ← fBool j "vertica",
+         table := ← jOpt dTRef (fld j "table"), temporary := ← fBool j "temporary", unlogged := ← fBool j "unlogged",
+         ifNotExists := ← fBool j "if_not_exists", systemVersioning := ← fBool j "system_versioning",
+         «local» := ← fBool j "local", preserveRows := ← fBool j "preserve_rows",
+         columns := ← (← fArr j "columns").mapM dColumn, periodFors := pf,
+         uniques := ← (← fArr j "uniques").mapM dStrs, primaryKey := ← jOpt dStrs (fld j "primary_key"),
+         foreignKey := fk, onDelete := ← fOptStr j "on_delete", onUpdate := ← fOptStr j "on_update",
+         asSelect := ← jOpt dQuery (fld j "as_select") }
+
+def dIndex (j : Json) : D IndexD := do
+  pure { index := ← fStr j "index", table := ← fStr j "table", columns := ← dStrs (fld j "columns"), unique := ← fBool j "unique",
+         ifNotExists := ← fBool j "if_not_exists", wheres := ← fOptStr j "wheres" }
+
+def dDrop (j : Json) : D DropD := do
+  let q ← jChar (fld j "quote")
+  let t := fld j "target"
+  let target : Doc ← match (← (fld t "t").getStr?) with
+    | "table" => do let r ← dTRef (fld t "ref"); pure (r.doc { quote := .given q } ++ aliasDoc {} q r.alias)
+    | "schema" => do pure (schemaDoc q (← dStrs (fld t "chain")))
+    | "name" => do pure [Piece.ident q (← fStr t "name")]
+    | s => throw s!"drop target {s}"
+  pure { kind := ← fStr j "kind", ifExists := ← fBool j "if_exists", quote := q, target, cluster := ← fOptStr j "cluster" }
 
 def dStyle (s : String) : D ParamStyle :=
   match s with
